@@ -12,7 +12,6 @@ package main
 import (
 	"fmt"
 	"os"
-	"runtime/debug"
 	"runtime/pprof"
 	"strings"
 	"time"
@@ -148,7 +147,7 @@ func (c *ctx) exploreTrie(d *trieDriver, depth int, refCache bool) partStats {
 	frontier := []tNode{{nil, k0}}
 	st.PerLevel = append(st.PerLevel, 1)
 	na := len(d.alpha)
-	const chunk = 2048
+	const chunk = 512
 	for level := 1; level <= depth; level++ {
 		var next []tNode
 		newStates := 0
@@ -262,7 +261,7 @@ func (c *ctx) exploreSDB(start string, prefix []sOp, depth int, sh *sdbShared) p
 	absorb(sOpsOf(prefix, alpha, nil, -1), &r0)
 	frontier := [][]uint8{{}}
 	st.PerLevel = append(st.PerLevel, 1)
-	const chunk = 4096
+	const chunk = 1024
 	type task struct {
 		node int
 		op   int
@@ -351,16 +350,6 @@ type trieRun struct {
 func main() {
 	run := core.Start("C11", "model_checking", "XSTATE+DIFFREF")
 	initUniverse()
-	// Executions are short-lived garbage and the live heap is small: collect
-	// only when the heap reaches 1.5 GiB instead of after every few MB.
-	debug.SetGCPercent(-1)
-	debug.SetMemoryLimit(1536 << 20)
-	if v := os.Getenv("VERIF_GC"); v != "" {
-		var pc, lim int
-		fmt.Sscanf(v, "%d,%d", &pc, &lim)
-		debug.SetGCPercent(pc)
-		debug.SetMemoryLimit(int64(lim) << 20)
-	}
 	c := &ctx{run: run, samples: core.NewSampler(6, run.Seed), classes: core.NewCounter(), coarse: core.NewCounter()}
 
 	if run.ReplayPath != "" {
